@@ -225,6 +225,10 @@ fn cmd_min(args: &[String]) -> i32 {
         }
         break;
     }
+    if let Some(dir) = arg_value(args, "--out") {
+        let path = driver::write_replay(std::path::Path::new(&dir), "btsim", &cur);
+        println!("replay file: {}", path.display());
+    }
     println!("minimised after {} executions", execs);
     println!("sig: {}", cur.sig_string());
     println!("detail: {}", cur.detail);
